@@ -30,6 +30,15 @@ type scen struct {
 	Reply     string `json:"reply"`
 	Malform   string `json:"malform"`
 	Buffers   []int  `json:"buffers"` // BUFFER sequence after data (nil = len, 0)
+	// CloseUnflushed: the TNC never reports an empty buffer, not even when the application closes: Close gives the flush its
+	// 30 s and then disconnects all the same
+	CloseUnflushed bool `json:"closeunflushed"`
+	// LateReader: the application starts reading only when the remote has sent all its frames (more than the receive
+	// queue holds: the stream is still all of them, in order)
+	LateReader bool `json:"latereader"`
+	// IdleSeconds: ... and stays away for this long (the library gives a full receive queue one minute, then it
+	// disconnects; whatever it does, the process survives)
+	IdleSeconds int `json:"idleseconds"`
 	// Script names a BUFFER / CRCFAULT interleaving with reports that crossed a data frame on the line:
 	//  "stale-report-crcfault": the BUFFER 0 about frame 1 crosses frame 2; the TNC answers frame 2 with CRCFAULT.
 	//  "stale-zero":      frame 1 -> BUFFER 5; a BUFFER 0 for frame 1 crosses frame 2; frame 2 -> BUFFER 5; Flush is called;
@@ -257,12 +266,21 @@ func runScenarioWatched(sc scen) []rec.Event {
 		} else if f, ok := conn.(interface{ Flush() error }); ok && len(accepted) > 0 {
 			var ferr error
 			sim.Note("flushCall", 0)
-			ret := within(5*time.Second, func() { pan = guard(func() { ferr = f.Flush() }); sim.Note("flushRet", 0) })
+			ret := within(5*time.Second, func() {
+				pan = guard(func() { ferr = f.Flush() })
+				if ferr == nil {
+					sim.Note("flushRet", 0) // "everything is out"
+				} else {
+					sim.Note("flushErr", 0) // a Flush that gives up (the connection went away under it) claims nothing
+				}
+			})
 			now := time.Now()
 			if sc.Buffers != nil && sc.Buffers[len(sc.Buffers)-1] != 0 {
 				// the TNC never reports an empty buffer: Flush must not return
 				add(rec.Event{"op": "Api", "call": "Flush(no BUFFER 0)", "ok": !ret, "panic": ""})
-				sim.SendCmd("BUFFER 0") // now let the connection be closed
+				if !sc.CloseUnflushed {
+					sim.SendCmd("BUFFER 0") // now let the connection be closed
+				}
 			} else {
 				add(rec.Event{"op": "Api", "call": "Flush", "ok": ret && pan == "" && ferr == nil && sim.FlushSound(now), "panic": pan, "returned": ret})
 			}
@@ -275,7 +293,7 @@ func runScenarioWatched(sc scen) []rec.Event {
 		readDone := make(chan struct{})
 		var rpan string
 		startRead := make(chan struct{})
-		if !sc.DiscAfter {
+		if !sc.DiscAfter && !sc.LateReader {
 			close(startRead)
 		}
 		go func() {
@@ -298,20 +316,41 @@ func runScenarioWatched(sc scen) []rec.Event {
 			want = append(want, pattern(49, sc.EarlyData)...)
 		}
 		for i, n := range sc.Frames {
-			p := pattern(50+i, n)
-			want = append(want, p...)
-			if sc.Noise {
-				sim.SendData("FEC", []byte("fec data not for the connection"))
-				sim.SendData("IDF", []byte("ID:LA9XYZ [JP20]:"))
-				sim.SendCmd("BUSY TRUE")
-				sim.SendData("ERR", []byte("garbled"))
-				sim.SendCmd("NEWSTATE IRS")
-				sim.SendCmd("PTT TRUE")
-				sim.SendCmd("BUSY FALSE")
-				sim.SendCmd("PTT FALSE")
-				sim.SendCmd("INPUTPEAKS 123 456")
+			want = append(want, pattern(50+i, n)...)
+		}
+		sendAll := func() {
+			for i, n := range sc.Frames {
+				p := pattern(50+i, n)
+				if sc.Noise {
+					sim.SendData("FEC", []byte("fec data not for the connection"))
+					sim.SendData("IDF", []byte("ID:LA9XYZ [JP20]:"))
+					sim.SendCmd("BUSY TRUE")
+					sim.SendData("ERR", []byte("garbled"))
+					sim.SendCmd("NEWSTATE IRS")
+					sim.SendCmd("PTT TRUE")
+					sim.SendCmd("BUSY FALSE")
+					sim.SendCmd("PTT FALSE")
+					sim.SendCmd("INPUTPEAKS 123 456")
+				}
+				sim.SendData("ARQ", p)
 			}
-			sim.SendData("ARQ", p)
+		}
+		if sc.LateReader {
+			// the TNC's line is a pipe: once the library stops taking frames the sender waits, so it gets its own goroutine
+			sent := make(chan struct{})
+			go func() { sendAll(); close(sent) }()
+			if sc.IdleSeconds > 0 {
+				time.Sleep(time.Duration(sc.IdleSeconds) * time.Second)
+			} else {
+				time.Sleep(700 * time.Millisecond)
+			}
+			close(startRead)
+			select {
+			case <-sent:
+			case <-time.After(10 * time.Second):
+			}
+		} else {
+			sendAll()
 		}
 		if sc.DiscAfter {
 			sim.SendCmd("NEWSTATE DISC")
@@ -333,8 +372,14 @@ func runScenarioWatched(sc scen) []rec.Event {
 		mu.Lock()
 		g := append([]byte(nil), got...)
 		mu.Unlock()
-		add(rec.Event{"op": "Reads", "match": bytes.Equal(g, want), "got": len(g), "want": len(want), "panic": rpan,
-			"foreign": bytes.Contains(g, []byte("fec data")) || bytes.Contains(g, []byte("LA9XYZ")) || bytes.Contains(g, []byte("garbled"))})
+		if sc.IdleSeconds > 0 {
+			// after a minute of a full queue the library disconnects on its own account: what is judged is that the process is
+			// still there and the reader is not served anything but the remote's bytes, in order
+			add(rec.Event{"op": "Reads", "match": bytes.HasPrefix(want, g), "got": len(g), "want": len(want), "panic": rpan, "foreign": false})
+		} else {
+			add(rec.Event{"op": "Reads", "match": bytes.Equal(g, want), "got": len(g), "want": len(want), "panic": rpan,
+				"foreign": bytes.Contains(g, []byte("fec data")) || bytes.Contains(g, []byte("LA9XYZ")) || bytes.Contains(g, []byte("garbled"))})
+		}
 		if sc.Noise {
 			// PTT requests reach the controller in the TNC's order (after the two of the dial sequence)
 			ptt.mu.Lock()
@@ -352,7 +397,11 @@ func runScenarioWatched(sc scen) []rec.Event {
 	}
 	var cerr error
 	sim.Note("closeCall", 0)
-	ret := within(6*time.Second, func() { pan = guard(func() { cerr = conn.Close() }); sim.Note("closeRet", 0) })
+	closeWithin := 6 * time.Second
+	if sc.CloseUnflushed {
+		closeWithin = 45 * time.Second
+	}
+	ret := within(closeWithin, func() { pan = guard(func() { cerr = conn.Close() }); sim.Note("closeRet", 0) })
 	add(rec.Event{"op": "Api", "call": "Close", "ok": ret && pan == "" && cerr == nil, "panic": pan, "err": fmt.Sprint(cerr)})
 	if !sc.DiscAfter {
 		add(rec.Event{"op": "CloseLog", "log": sim.LogSnapshot()})
@@ -726,6 +775,31 @@ func Main(args []string) int {
 	mk(func(s *scen) { s.Kind = "outbound"; s.Writes = []int{500}; s.CRCFaults = 2 })
 	mk(func(s *scen) { s.Kind = "outbound"; s.Writes = []int{70}; s.CRCFaults = 3 })
 	mk(func(s *scen) { s.Kind = "outbound"; s.Writes = []int{70}; s.Buffers = []int{70, 35} })
+	mk(func(s *scen) {
+		s.Kind = "outbound"
+		s.Writes = []int{70}
+		s.Buffers = []int{70, 35}
+		s.CloseUnflushed = true
+	})
+	mk(func(s *scen) {
+		s.Kind = "inbound"
+		s.Frames = make([]int, 4300)
+		for i := range s.Frames {
+			s.Frames[i] = 1 + i%3
+		}
+		s.LateReader = true
+	})
+	if *n >= 200 { // (thorough tier: takes more than a minute)
+		mk(func(s *scen) {
+			s.Kind = "inbound"
+			s.Frames = make([]int, 4300)
+			for i := range s.Frames {
+				s.Frames[i] = 1 + i%3
+			}
+			s.LateReader = true
+			s.IdleSeconds = 63
+		})
+	}
 	mk(func(s *scen) { s.Kind = "outbound"; s.Writes = []int{70, 80}; s.Buffers = []int{150, 100, 20, 0} })
 	mk(func(s *scen) { s.Kind = "outbound"; s.Writes = []int{50, 60}; s.Script = "stale-zero" })
 	mk(func(s *scen) { s.Kind = "outbound"; s.Writes = []int{50, 60}; s.Script = "stale-report-crcfault" })
